@@ -25,6 +25,9 @@ static const vf_group *vf_g;
 static long vf_steps, vf_horizon = 4000;
 static char vf_fatal_msg[256];
 static FILE *vf_out;
+static int vf_cur_more_prefix;      /* bytes of yytext carried over by yymore() */
+static int vf_bufsize;               /* 0: the scanner's default buffer */
+static const char *vf_expected_fatal; /* substring of a fatal message the model predicts, or NULL */
 
 /* counters */
 static long vf_n_tokens, vf_n_mismatch, vf_n_fatal, vf_n_horizon, vf_n_nontrivial, vf_n_inputs;
@@ -151,7 +154,9 @@ static void vf_act(int act, const char *text, long leng, int start, int lineno, 
 			vf_mismatch("start condition at EOF", act, text, 0, start, lineno);
 		return;
 	}
-	if (!vf_ref_match(&vf_R)) {
+	if (vf_R.rejecting) {
+		vf_ref_next_candidate(&vf_R);
+	} else if (!vf_ref_match(&vf_R)) {
 		vf_R.rule = 0; vf_R.nsplit = 0;
 		vf_mismatch("token after end of input", act, text, leng, start, lineno);
 	}
@@ -159,6 +164,7 @@ static void vf_act(int act, const char *text, long leng, int start, int lineno, 
 	vf_mark_edges();
 #endif
 	seg = (int)leng - vf_R.more_len;
+	vf_cur_more_prefix = vf_R.more_len;
 	if (act != vf_R.rule)
 		vf_mismatch("rule", act, text, leng, start, lineno);
 	if (!vf_ref_split_ok(&vf_R, seg))
@@ -181,14 +187,170 @@ static void vf_act(int act, const char *text, long leng, int start, int lineno, 
 	}
 }
 
+
+/* ---- action operations ---- */
+enum { VF_OP_NONE = 0, VF_OP_LESS = 1, VF_OP_UNPUT = 2, VF_OP_INPUT1 = 3, VF_OP_INPUT2 = 4, VF_OP_INPUT3 = 5,
+       VF_OP_MORE = 6, VF_OP_REJECT = 7, VF_OP_BEGIN = 8, VF_OP_PUSH = 9, VF_OP_POP = 10, VF_OP_TOP = 11,
+       VF_OP_SETBOL = 12, VF_OP_RETURN = 13, VF_NOPS = 14 };
+#ifndef VF_OPMASK
+#define VF_OPMASK 0
+#endif
+#ifndef VF_UNPUT_CHARS
+#define VF_UNPUT_CHARS "ab\n"
+#endif
+static long vf_n_ops[VF_NOPS], vf_n_op_effect;
+
+static int vf_op(long leng)
+{
+	int menu[VF_NOPS], n = 0, i, c;
+	menu[n++] = VF_OP_NONE;
+	for (i = 1; i < VF_NOPS; i++) {
+		if (!((VF_OPMASK >> i) & 1)) continue;
+		if (i == VF_OP_POP && vf_R.sp == 0) {
+#ifndef VF_ALLOW_UNDERFLOW
+			continue;
+#endif
+		}
+		if (i == VF_OP_TOP && vf_R.sp == 0) continue;
+		menu[n++] = i;
+	}
+	(void)leng;
+	c = vf_choose(n, VF_K_OP);
+	vf_n_ops[menu[c]]++;
+	return menu[c];
+}
+
+static int vf_arg_less(long leng)
+{
+	/* k ranges over [prefix, yyleng]; simplest first: give back one character, two, ... */
+	int lo = vf_cur_more_prefix, n = (int)leng - lo + 1, c;
+	if (n < 1) return (int)leng;
+	c = vf_choose(n, VF_K_ARG);
+	return (int)leng - 1 - c >= lo ? (int)leng - 1 - c : (int)leng;   /* last alternative: yyless(yyleng) */
+}
+
+static int vf_arg_unput(void)
+{
+	static const char chars[] = VF_UNPUT_CHARS;
+	int c = vf_choose((int)sizeof chars - 1, VF_K_ARG);
+	/* "push-back overflow" is the documented outcome when the buffer cannot hold the
+	 * pushed-back text and the current token; only tiny explicit buffers may hit it */
+	if (vf_bufsize > 0 && vf_bufsize <= 8) vf_expected_fatal = "push-back overflow";
+	return (unsigned char)chars[c];
+}
+
+static int vf_arg_sc(void)
+{
+	int n = (int)(sizeof vf_sc_args / sizeof vf_sc_args[0]);
+	return vf_sc_args[vf_choose(n, VF_K_ARG)];
+}
+
+static void vf_op_mismatch(const char *what, int exp, int obs)
+{
+	vf_mm.what = what; vf_mm.tokidx = vf_tok_in_exec;
+	vf_mm.exp_rule = vf_R.rule; vf_mm.obs_rule = vf_R.rule;
+	vf_mm.exp_len = exp; vf_mm.obs_len = obs;
+	vf_mm.exp_sc = vf_R.sc; vf_mm.obs_sc = vf_R.sc; vf_mm.exp_line = vf_R.lineno; vf_mm.obs_line = vf_R.lineno;
+	vf_mm.exp_tl = vf_mm.obs_tl = 0;
+	vf_leave(VF_ST_MISMATCH);
+}
+
+static void vf_check_line(int lineno)
+{
+#ifdef VF_CHECK_LINENO
+	if (lineno != vf_R.lineno) {
+		vf_mm.what = "yylineno after operation"; vf_mm.tokidx = vf_tok_in_exec;
+		vf_mm.exp_rule = vf_mm.obs_rule = vf_R.rule; vf_mm.exp_len = vf_mm.obs_len = 0;
+		vf_mm.exp_sc = vf_mm.obs_sc = vf_R.sc; vf_mm.exp_line = vf_R.lineno; vf_mm.obs_line = lineno;
+		vf_mm.exp_tl = vf_mm.obs_tl = 0;
+		vf_leave(VF_ST_MISMATCH);
+	}
+#else
+	(void)lineno;
+#endif
+}
+
+static void vf_did_less(int n, const char *text, long leng, int lineno)
+{
+	vf_ref_less(&vf_R, n);
+	if (leng != n) vf_op_mismatch("yyleng after yyless", n, (int)leng);
+	if (memcmp(text, vf_R.text, (size_t)n) != 0) vf_op_mismatch("yytext after yyless", n, (int)leng);
+	vf_check_line(lineno);
+	vf_n_op_effect++;
+}
+
+static void vf_did_unput(int c, const char *text, long leng, int lineno)
+{
+	vf_expected_fatal = 0;
+	vf_ref_unput(&vf_R, c);
+#ifdef VF_ARRAY
+	/* %array: yytext is preserved across yyunput() */
+	if (leng != vf_R.text_len || memcmp(text, vf_R.text, (size_t)leng) != 0)
+		vf_op_mismatch("yytext after yyunput (%array)", vf_R.text_len, (int)leng);
+#else
+	(void)text; (void)leng;
+#endif
+	vf_check_line(lineno);
+	vf_n_op_effect++;
+}
+
+static void vf_did_input(int c, int lineno)
+{
+	int e = vf_ref_input(&vf_R);
+	if (e < 0) {
+		if (c != 0 && c != EOF) vf_op_mismatch("yyinput at end of input", 0, c);
+	} else if (c != e) {
+		vf_op_mismatch("yyinput return value", e, c);
+	}
+	vf_check_line(lineno);
+	vf_n_op_effect++;
+}
+
+static void vf_did_more(void) { vf_ref_more(&vf_R); vf_n_op_effect++; }
+static void vf_will_reject(void) { vf_ref_reject(&vf_R); vf_n_tokens--; vf_n_op_effect++; }
+
+static void vf_did_begin(int sc, int now)
+{
+	vf_R.sc = sc;
+	if (now != sc) vf_op_mismatch("yystart() after yybegin", sc, now);
+}
+static void vf_did_push(int sc, int now)
+{
+	if (vf_R.sp < 255) vf_R.stack[vf_R.sp++] = vf_R.sc;
+	vf_R.sc = sc;
+	if (now != sc) vf_op_mismatch("yystart() after yy_push_state", sc, now);
+}
+static int vf_expect_underflow;
+static void vf_will_pop(void) { vf_expect_underflow = (vf_R.sp == 0); }
+static void vf_did_pop(int now)
+{
+	if (vf_expect_underflow) vf_op_mismatch("yy_pop_state on an empty stack returned", -1, now);
+	vf_R.sc = vf_R.stack[--vf_R.sp];
+	if (now != vf_R.sc) vf_op_mismatch("yystart() after yy_pop_state", vf_R.sc, now);
+}
+static void vf_did_top(int top)
+{
+	if (top != vf_R.stack[vf_R.sp - 1]) vf_op_mismatch("yy_top_state()", vf_R.stack[vf_R.sp - 1], top);
+}
+static void vf_did_setbol(int v, int now)
+{
+	vf_R.bol = v;
+	if (!!now != !!v) vf_op_mismatch("yyatbol() after yysetbol", v, now);
+}
+static void vf_did_return(void) { }
+
 /* ---- API flavour glue ---- */
 #if defined(VF_API_NR)
 #define VF_LEX() yylex()
+#define VF_S0
+#define VF_S1
 static void vf_fresh(void) { yylex_destroy(); }
 static void vf_finish(void) { yylex_destroy(); }
 #elif defined(VF_API_R) || defined(VF_API_C99)
 static yyscan_t vf_scanner;
 #define VF_LEX() yylex(vf_scanner)
+#define VF_S0 vf_scanner
+#define VF_S1 , vf_scanner
 static void vf_fresh(void)
 {
 	if (vf_scanner) { yylex_destroy(vf_scanner); vf_scanner = 0; }
@@ -198,19 +360,27 @@ static void vf_finish(void) { if (vf_scanner) { yylex_destroy(vf_scanner); vf_sc
 #endif
 
 /* vf_cur_sc (declared in section 1) is read by %option user-init: yybegin(vf_cur_sc) */
+static long vf_n_expected_fatal;
 
 static void vf_report(int st)
 {
 	int i;
+	if (st == VF_ST_FATAL && vf_expected_fatal && strstr(vf_fatal_msg, vf_expected_fatal)) {
+		vf_n_expected_fatal++;
+		return;
+	}
 	if (st == VF_ST_MISMATCH) vf_n_mismatch++;
 	else if (st == VF_ST_FATAL) vf_n_fatal++;
 	else if (st == VF_ST_HORIZON) { vf_n_horizon++; return; }
 	if (vf_reported_in_group >= VF_MAX_REPORT_PER_GROUP) return;
 	vf_reported_in_group++;
-	fprintf(vf_out, "{\"viol\":\"%s\",\"group\":%d,\"sc\":%d,\"input\":", st == VF_ST_FATAL ? "fatal" : "mismatch", vf_g->id, vf_g->sc);
+	fprintf(vf_out, "{\"viol\":\"%s\",\"group\":%d,\"sc\":%d,\"bufsize\":%d,\"input\":", st == VF_ST_FATAL ? "fatal" : "mismatch",
+		vf_g->id, vf_g->sc, vf_bufsize);
 	vf_hex(vf_out, vf_in, vf_in_len);
 	fprintf(vf_out, ",\"choices\":[");
 	for (i = 0; i < vf_tr_len; i++) fprintf(vf_out, "%s%d", i ? "," : "", vf_tr_choice[i]);
+	fprintf(vf_out, "],\"kinds\":[");
+	for (i = 0; i < vf_tr_len; i++) fprintf(vf_out, "%s%d", i ? "," : "", vf_tr_kind[i]);
 	fprintf(vf_out, "]");
 	if (st == VF_ST_FATAL) {
 		fprintf(vf_out, ",\"msg\":\"%s\",\"tok\":%d}\n", vf_fatal_msg, vf_tok_in_exec);
@@ -229,13 +399,15 @@ static void vf_report(int st)
 static void vf_run_one(void)
 {
 	int st, r;
-	vf_fresh();
 	vf_in_pos = 0; vf_steps = 0; vf_tok_in_exec = 0; vf_nrules_in_exec = 0;
-	vf_cur_sc = vf_g->sc;
+	vf_cur_sc = vf_g->sc; vf_cur_more_prefix = 0; vf_expected_fatal = 0; vf_expect_underflow = 0;
 	vf_ref_init(&vf_R, vf_in, vf_in_len, vf_g->sc);
 	st = setjmp(vf_jmp);
 	if (st == 0) {
 		vf_in_yylex = 1;
+		vf_fresh();
+		if (vf_bufsize > 0)
+			yy_switch_to_buffer(yy_create_buffer(stdin, vf_bufsize VF_S1) VF_S1);  /* a NULL file would mark the buffer as not refillable */
 		do { r = VF_LEX(); } while (r != 0);
 		vf_in_yylex = 0;
 		if (vf_R.head < vf_R.tail) {
@@ -252,6 +424,18 @@ static void vf_run_one(void)
 	if (vf_tok_in_exec >= 2 && vf_nrules_in_exec >= 2) vf_n_nontrivial++;
 }
 
+static const int vf_bufsizes[] = { VF_BUFSIZES };
+
+static void vf_explore_input(void)
+{
+	int i;
+	vf_n_inputs++;
+	for (i = 0; i < (int)(sizeof vf_bufsizes / sizeof vf_bufsizes[0]); i++) {
+		vf_bufsize = vf_bufsizes[i];
+		vf_explore(vf_run_one);
+	}
+}
+
 static void vf_enum_inputs(void)
 {
 	unsigned char buf[16];
@@ -262,8 +446,8 @@ static void vf_enum_inputs(void)
 		for (i = 0; i < len; i++) idx[i] = 0;
 		for (;;) {
 			for (i = 0; i < len; i++) buf[i] = vf_g->alpha[idx[i]];
-			vf_in = buf; vf_in_len = len; vf_n_inputs++;
-			vf_explore(vf_run_one);
+			vf_in = buf; vf_in_len = len;
+			vf_explore_input();
 			for (i = len - 1; i >= 0; i--) {
 				if (++idx[i] < vf_g->nalpha) break;
 				idx[i] = 0;
@@ -275,23 +459,61 @@ static void vf_enum_inputs(void)
 	p = vf_g->extra;
 	for (k = 0; k < vf_g->nextra; k++) {
 		int l = p[0] | (p[1] << 8);
-		vf_in = p + 2; vf_in_len = l; vf_n_inputs++;
-		vf_explore(vf_run_one);
+		vf_in = p + 2; vf_in_len = l;
+		vf_explore_input();
 		p += 2 + l;
 	}
 }
 
+/* Watchdog: an execution normally takes microseconds.  If the same execution is still running
+ * two timer ticks later the scanner is looping without reaching any hook (the step horizon only
+ * sees loops that pass through an action or a read); report it as a hang and stop. */
+#include <signal.h>
+#include <unistd.h>
+static volatile long vf_wd_last = -1; static volatile int vf_wd_same;
+static int vf_wd_secs = 2;
+static void vf_watchdog(int sig)
+{
+	(void)sig;
+	if (vf_in_yylex && vf_wd_last == vf_executions) {
+		if (++vf_wd_same >= 2) {
+			int i;
+			fprintf(vf_out, "{\"viol\":\"hang\",\"group\":%d,\"sc\":%d,\"bufsize\":%d,\"input\":", vf_g ? vf_g->id : -1,
+				vf_g ? vf_g->sc : -1, vf_bufsize);
+			vf_hex(vf_out, vf_in, vf_in_len);
+			fprintf(vf_out, ",\"choices\":[");
+			for (i = 0; i < vf_tr_len; i++) fprintf(vf_out, "%s%d", i ? "," : "", vf_tr_choice[i]);
+			fprintf(vf_out, "],\"what\":\"no hook reached for %d s: the scanner loops inside yylex\",\"tok\":%d}\n", 2 * vf_wd_secs, vf_tok_in_exec);
+			fprintf(vf_out, "{\"summary\":1,\"aborted\":\"hang\",\"executions\":%ld,\"tokens\":%ld,\"mismatches\":%ld,\"fatals\":%ld,"
+				"\"inputs\":%ld,\"nontrivial\":%ld,\"horizons\":%ld,\"ref_states\":%ld,\"ref_edges\":%ld,\"ref_edges_walked\":%ld,"
+				"\"choice_points\":%ld,\"overflow\":%d,\"expected_fatals\":%ld,\"op_effects\":%ld,\"reads\":%ld,\"eof_actions\":%ld,\"bound\":-1,"
+				"\"ops\":[0,0,0,0,0,0,0,0,0,0,0,0,0,0]}\n", vf_executions, vf_n_tokens, vf_n_mismatch + 1, vf_n_fatal, vf_n_inputs,
+				vf_n_nontrivial, vf_n_horizon, vf_states_total, vf_edges_live, vf_edges_seen_n, vf_choice_points, vf_overflow,
+				vf_n_expected_fatal, vf_n_op_effect, vf_n_reads, vf_n_eof);
+			fflush(vf_out);
+			_exit(0);
+		}
+	} else {
+		vf_wd_same = 0;
+		vf_wd_last = vf_executions;
+	}
+	alarm((unsigned)vf_wd_secs);
+}
+
 int main(int argc, char **argv)
 {
-	int gi, ng = (int)(sizeof vf_groups / sizeof vf_groups[0]), i, only = -1;
+	int gi, ng = (int)(sizeof vf_groups / sizeof vf_groups[0]), i, only = -1, bound, vf_bound_done;
 	int ndfa = (int)(sizeof vf_dfas / sizeof vf_dfas[0]);
 	vf_out = stdout;
 	for (i = 1; i < argc; i++) {
 		if (!strcmp(argv[i], "-o") && i + 1 < argc) vf_out = fopen(argv[++i], "w");
 		else if (!strcmp(argv[i], "-g") && i + 1 < argc) only = atoi(argv[++i]);
 		else if (!strcmp(argv[i], "-H") && i + 1 < argc) vf_horizon = atol(argv[++i]);
+		else if (!strcmp(argv[i], "-W") && i + 1 < argc) vf_wd_secs = atoi(argv[++i]);
 	}
 	if (!vf_out) return 5;
+	signal(SIGALRM, vf_watchdog);
+	alarm((unsigned)vf_wd_secs);
 	vf_dfa_edge_base = (int *)calloc((size_t)ndfa + 1, sizeof(int));
 	for (i = 0; i < ndfa; i++) {
 		vf_dfa_edge_base[i] = (int)vf_edges_total;
@@ -304,19 +526,41 @@ int main(int argc, char **argv)
 #ifdef VF_BUDGET_READ
 	vf_budget[VF_K_READ] = VF_BUDGET_READ;
 #endif
-	vf_budget_total = VF_BUDGET_TOTAL;
-	for (gi = 0; gi < ng; gi++) {
-		if (only >= 0 && vf_groups[gi].id != only) continue;
-		vf_g = &vf_groups[gi];
-		vf_reported_in_group = 0;
-		vf_enum_inputs();
+#ifdef VF_BUDGET_OP
+	vf_budget[VF_K_OP] = VF_BUDGET_OP;
+#endif
+	vf_budget[VF_K_ARG] = 1000; vf_kind_free[VF_K_ARG] = 1;   /* arguments are enumerated exhaustively */
+#ifdef VF_FREE_READ
+	vf_kind_free[VF_K_READ] = 1;
+#endif
+#ifdef VF_FREE_OP
+	vf_kind_free[VF_K_OP] = 1;
+#endif
+	/* iterate the deviation bound: everything with 0 deviations, then <= 1, ... so that the first
+	 * counterexample reported has the fewest deviations; counters are those of the last pass */
+	for (bound = (VF_BUDGET_TOTAL > 0 ? 0 : VF_BUDGET_TOTAL); bound <= VF_BUDGET_TOTAL; bound++) {
+		vf_budget_total = bound;
+		vf_n_tokens = vf_n_mismatch = vf_n_fatal = vf_n_horizon = vf_n_nontrivial = vf_n_inputs = 0;
+		vf_n_reads = vf_n_eof = vf_executions = vf_choice_points = vf_n_expected_fatal = vf_n_op_effect = 0;
+		memset(vf_n_ops, 0, sizeof vf_n_ops);
+		for (gi = 0; gi < ng; gi++) {
+			if (only >= 0 && vf_groups[gi].id != only) continue;
+			vf_g = &vf_groups[gi];
+			vf_reported_in_group = 0;
+			vf_enum_inputs();
+		}
+		if (vf_n_mismatch + vf_n_fatal > 0) break;
 	}
+	vf_bound_done = bound > VF_BUDGET_TOTAL ? VF_BUDGET_TOTAL : bound;
 	vf_finish();
 	fprintf(vf_out, "{\"summary\":1,\"groups\":%d,\"inputs\":%ld,\"executions\":%ld,\"tokens\":%ld,\"mismatches\":%ld,"
 		"\"fatals\":%ld,\"horizons\":%ld,\"nontrivial\":%ld,\"reads\":%ld,\"eof_actions\":%ld,"
-		"\"ref_states\":%ld,\"ref_edges\":%ld,\"ref_edges_walked\":%ld,\"choice_points\":%ld,\"overflow\":%d}\n",
+		"\"ref_states\":%ld,\"ref_edges\":%ld,\"ref_edges_walked\":%ld,\"choice_points\":%ld,\"overflow\":%d,"
+		"\"bound\":%d,\"expected_fatals\":%ld,\"op_effects\":%ld,\"ops\":[%ld,%ld,%ld,%ld,%ld,%ld,%ld,%ld,%ld,%ld,%ld,%ld,%ld,%ld]}\n",
 		ng, vf_n_inputs, vf_executions, vf_n_tokens, vf_n_mismatch, vf_n_fatal, vf_n_horizon, vf_n_nontrivial,
-		vf_n_reads, vf_n_eof, vf_states_total, vf_edges_live, vf_edges_seen_n, vf_choice_points, vf_overflow);
+		vf_n_reads, vf_n_eof, vf_states_total, vf_edges_live, vf_edges_seen_n, vf_choice_points, vf_overflow,
+		vf_bound_done, vf_n_expected_fatal, vf_n_op_effect, vf_n_ops[0], vf_n_ops[1], vf_n_ops[2], vf_n_ops[3], vf_n_ops[4], vf_n_ops[5], vf_n_ops[6],
+		vf_n_ops[7], vf_n_ops[8], vf_n_ops[9], vf_n_ops[10], vf_n_ops[11], vf_n_ops[12], vf_n_ops[13]);
 	fclose(vf_out);
 	return 0;
 }
